@@ -181,7 +181,7 @@ func (c17) Exec(seed int64, i int, tier string) Record {
 	rec.Q = []LeanQ{{Driver: "peg", Line: "(q parse " + accS + " " + SexpString(s) + ")", Expect: expect,
 		What: "real Parse vs the grammar executed in Lean (parseModel)", Oracle: true, Skip: "(q unmodelled)"}}
 	// three-way (L20): the same question answered with the expressions decompiled from the rule functions of jsonpath.peg.go
-	rec.Q = append(rec.Q, LeanQ{Driver: "peg", Line: "(q goparse " + accS + " " + SexpString(s) + ")", Expect: expect,
+	rec.Q = append(rec.Q, LeanQ{Driver: "peggo", Line: "(q goparse " + accS + " " + SexpString(s) + ")", Expect: expect,
 		What: "real Parse vs the decompiled rule functions of jsonpath.peg.go executed in Lean (Gen.goGrammar)", Oracle: true, Skip: "(q unmodelled)"})
 	return rec
 }
